@@ -201,6 +201,23 @@ class Body:
                     work.append(s)
         return seen
 
+    def edge_dominates(self, src, dst, bb, unwind=False):
+        """every path from entry to bb traverses the CFG edge src -> dst"""
+        seen = set()
+        work = [0]
+        while work:
+            b = work.pop()
+            if b in seen:
+                continue
+            seen.add(b)
+            if b == bb:
+                return False
+            for s in self.succs(b, unwind):
+                if b == src and s == dst:
+                    continue
+                work.append(s)
+        return True
+
     def call_blocks(self, pred):
         """blocks whose terminator is a call satisfying pred(callee_path, term)"""
         res = []
